@@ -162,6 +162,11 @@ def run(tier, seed, replay):
         cfg = rs[k]["cfg"]
         seen = {}
         for o, line in zip(hs[k], rl[k]):
+            if o["op"] == "newctx":
+                # a new context under this id: what the old one held says nothing about the new one
+                for key in [x for x in seen if isinstance(x, tuple) and x[0] == "cxby"]:
+                    seen[key].pop(o["ctx"], None)
+                continue
             if o["op"] not in ("get", "getctx") or not line.startswith("O("):
                 continue
             sv = cfg["services"].get(o["name"]) or {}
